@@ -275,7 +275,13 @@ def cells(planes: list[R], symbols: list[str], grid: list[Fraction], positive: s
             continue
         if extra_ok is not None and not extra_ok(pt):
             continue
-        sv = tuple((lambda v: (v > 0) - (v < 0))(p.value({**pt, "pi": Fraction(355, 113)})) for p in planes)
+        def _sign(p):
+            try:
+                v = p.value({**pt, "pi": Fraction(355, 113)})
+            except ZeroDivisionError:
+                return 2  # a face that is not defined here (its denominator vanishes): a class of its own
+            return (v > 0) - (v < 0)
+        sv = tuple(_sign(p) for p in planes)
         seen.setdefault(sv, pt)
     return list(seen.items())
 
